@@ -29,12 +29,17 @@ def copt(r):
     return '(Some ' + clist([cnat(x) for x in r['ok']]) + ')' if 'ok' in r else 'None'
 
 
-def render(case, obs):
-    if case['kind'] == 'find_indices':
-        return f'(SFindIndices {clist([cnat(x) for x in case["source"]])} {clist([cnat(x) for x in case["ordered"]])} {copt(obs)})'
+def render_seq(ids, obs):
     code = {}
-    ids = [code.setdefault(G.key_of(x), len(code)) for x in case['ids']]
+    ids = [code.setdefault(G.key_of(x), len(code)) for x in ids]
     return f'(SArgsort {clist([cnat(x) for x in ids])} {clist([cdec(d) for d in obs["decisions"]])} {copt(obs)})'
+
+
+def render(case, obs):
+    """a list of Coq terms: the main call and every follow-up call on the same sorter"""
+    if case['kind'] == 'find_indices':
+        return [f'(SFindIndices {clist([cnat(x) for x in case["source"]])} {clist([cnat(x) for x in case["ordered"]])} {copt(obs)})']
+    return [render_seq(case['ids'], obs)] + [render_seq(seq, o) for seq, o in zip(case.get('followups', []), obs.get('followups', []))]
 
 
 def predicate_problems(case, obs):
@@ -59,6 +64,11 @@ def predicate_problems(case, obs):
         p.append(f'identified objects give {obs.get("identified")}, TermIds give {r}')
     if obs.get('again') != r:
         p.append(f'second call gives {obs.get("again")}, first call gave {r}')
+    for seq, o in zip(case.get('followups', []), obs.get('followups', [])):
+        if 'ok' not in o:
+            p.append(f'follow-up call on the same sorter with {seq} raised {o.get("err")}')
+        elif sorted(o['ok']) != list(range(len(seq))):
+            p.append(f'follow-up call on the same sorter with {seq} is not a permutation: {o["ok"]}')
     return p
 
 
@@ -69,8 +79,14 @@ def evaluate(chk, cases, tag='cases', shard=300):
     bad = [i for i, o in enumerate(obs) if 'crash' in o]
     live = [i for i in range(len(cases)) if i not in set(bad)]
     terms = {i: render(cases[i], obs[i]) for i in live}
-    failing = {live[j]: ['implementation output differs from the model replaying its own decisions']
-               for j in chk.coq_failing(HEADER, [terms[i] for i in live], 'check_scase', shard=shard, tag=tag)}
+    flat, owner = [], []
+    for i in live:
+        for t in terms[i]:
+            flat.append(t)
+            owner.append(i)
+    failing = {owner[j]: ['implementation output differs from the model replaying its own decisions']
+               for j in chk.coq_failing(HEADER, flat, 'check_scase', shard=shard, tag=tag)}
+    terms = {i: terms[i][0] for i in live}
     for i in bad:
         failing[i] = ['observer crashed: ' + obs[i]['crash']]
     for i in live:
@@ -103,6 +119,12 @@ def gen(chk):
         n = rng.randint(1, maxlen)
         kind = ['edge', 'ic', 'scripted'][i % 3]
         c = {'kind': kind, 'factory': rng.choice(['idx', 'inc', 'bld']), 'edges': es, 'ids': gen_seq(rng, nodes, n, repeats=rng.random() < 0.5)}
+        if kind != 'scripted' and rng.random() < 0.6:
+            ids = c['ids']
+            fu = [ids + [rng.choice(ids)], list(dict.fromkeys(ids))]
+            if rng.random() < 0.5:
+                fu.append(gen_seq(rng, nodes, rng.randint(1, maxlen), repeats=True))
+            c['followups'] = fu
         if kind == 'ic':
             mode = rng.choice(['injective', 'zero', 'ties', 'negative'])
             vals = {'injective': lambda j: (j + 1) * 0.125, 'zero': lambda j: 0.0, 'ties': lambda j: float(j % 3), 'negative': lambda j: float(j % 4) - 1.5}[mode]
@@ -140,7 +162,7 @@ def run(chk):
     chk.rule = ('random DAGs (shape families) x sequences of 1-7 (thorough: 1-12) nodes, half of them with repeated ids, through HierarchicalEdgeTermIdSorting, '
                 'HierarchicalIcTermIdSorting (injective / all-zero / tied / partly negative IC) and HierarchicalSorting with a scripted arbitrary similarity measure; every run: '
                 'the decisions taken by the real loop are recorded and replayed through the model - the index tuple must be identical - and the property predicate is '
-                'evaluated on the output (permutation, (0,), Identified inputs, second call, input untouched); _find_indices called directly on random rearrangements with repeats; '
+                'evaluated on the output (permutation, (0,), Identified inputs, second call, input untouched); _find_indices called directly on random rearrangements with repeats; 60% of the runs are followed by 2-3 more calls on the SAME sorter instance (same id set with other multiplicities, de-duplicated, unrelated), each replayed and checked too; '
                 'the empty sequence must raise ValueError')
     if failing:
         report(chk, cases, obs, failing)
